@@ -7,6 +7,7 @@ import Driver.Riff
 import Driver.Player
 import Driver.Seek
 import Driver.Vgm
+import Driver.Conv
 open Driver
 
 def allHandlers : List Handler :=
@@ -14,6 +15,7 @@ def allHandlers : List Handler :=
   ++ PlayerD.handlers
   ++ SeekD.handlers
   ++ VgmD.handlers
+  ++ ConvD.handlers
 
 def answerModel (cmd arg : String) : String :=
   match allHandlers.find? (·.cmd == cmd) with
